@@ -116,6 +116,9 @@ def validate_traces(ctx, path, mutate=None):
     from concurrent.futures import ThreadPoolExecutor
     traces = [json.loads(l) for l in open(path) if l.strip()]
     traces = [t for t in traces if not any(e["k"] == "ret" and (e["res"] in ("hung", "close-timeout") or e["res"].startswith("other:")) for e in t["events"])]
+    if len(traces) > 600:          # one JVM per trace: keep the thorough tier inside a few minutes
+        step = len(traces) / 600.0
+        traces = [traces[int(i * step)] for i in range(600)]
     if mutate:
         traces = mutate(traces)
     work = common.stage_spec(os.path.join(ctx.tmp, "spec-trace-conn"))
